@@ -2,4 +2,4 @@
 
 package node
 
-func verifPoint(name string) {}
+func (rc *raftNode) verifPoint(name string) {}
